@@ -332,7 +332,12 @@ class EptMapResult:
                     b"".join(f.pack() for f in t),
                 ]
             )
-            padding = -(len(b_t)) % 4
+            if idx == len(self.towers) - 1:
+                # The status field after the last tower is aligned to 4 bytes.
+                padding = -(len(b_t)) % 4
+            else:
+                # The next tower starts with an 8 byte aligned NDR64 count.
+                padding = -(len(b_t) + 4) % 8
             b_tower += b"".join(
                 [
                     len(b_t).to_bytes(8, byteorder="little"),
